@@ -632,13 +632,26 @@ class BaseTrigger(ABC):
                 continue
             for vc_id in context.valid_conditions.keys():
                 condition_to_pending_triggers[vc_id].discard(trigger.trigger_id)
+            if trigger.logic == CompositeLogic.OR or len(trigger.condition_ids) == 1:
+                # Every pending occurrence is a launch of its own, claimed by its own
+                # run id and with the arguments derived from that occurrence alone.
+                for valid_condition in context.valid_conditions.values():
+                    occurrence = TriggerContext(
+                        valid_conditions={
+                            valid_condition.valid_condition_id: valid_condition
+                        }
+                    )
+                    for run_id in trigger.generate_trigger_run_ids(occurrence):
+                        if self.claim_trigger_run(run_id):
+                            args = trigger.get_arguments(occurrence)
+                            self.execute_task(trigger.task_id, args)
+                continue
             trigger_run_ids = trigger.generate_trigger_run_ids(context)
             for run_id in trigger_run_ids:
                 if self.claim_trigger_run(run_id):
                     args = trigger.get_arguments(context)
                     self.execute_task(trigger.task_id, args)
-                    # For OR logic, continue processing other run IDs
-                    # For AND logic, only one run ID is generated, so this has no effect
+                    # For AND logic, only one run ID is generated
                     if trigger.logic == CompositeLogic.AND:
                         break
         # Clean up the valid conditions that are no longer needed
